@@ -15,11 +15,15 @@ import (
 
 	"verif/harness/hx"
 
+	"github.com/KiraCore/sekai/x/distributor"
 	distrtypes "github.com/KiraCore/sekai/x/distributor/types"
 	"github.com/KiraCore/sekai/x/gov"
 	govtypes "github.com/KiraCore/sekai/x/gov/types"
+	"github.com/KiraCore/sekai/x/layer2"
 	layer2keeper "github.com/KiraCore/sekai/x/layer2/keeper"
 	layer2types "github.com/KiraCore/sekai/x/layer2/types"
+	"github.com/KiraCore/sekai/x/spending"
+	spendingtypes "github.com/KiraCore/sekai/x/spending/types"
 	"github.com/KiraCore/sekai/x/tokens"
 	tokenskeeper "github.com/KiraCore/sekai/x/tokens/keeper"
 	tokenstypes "github.com/KiraCore/sekai/x/tokens/types"
@@ -640,6 +644,58 @@ func main() {
 			obs, jo := tokObs(code, d)
 			add(fmt.Sprintf("OBurn %d %d %s", actor, d, hx.ZInt(amt)), obs, jop{Kind: "burn", Args: map[string]interface{}{"actor": actor, "denom": denoms[d], "amount": amt.String()}, Res: cls, Err: msg, Obs: jo})
 		}
+		// genesis round trip of every module that holds C13 state: real ExportGenesis (AppModule entry point, JSON codec),
+		// the module's store wiped, real InitGenesis; the history then continues on the imported state
+		doGenesis := func() {
+			type mod struct {
+				name string
+				exp  func(c sdk.Context) []byte
+				imp  func(c sdk.Context, bz []byte)
+			}
+			cdc := app.AppCodec()
+			mods := []mod{
+				{distrtypes.ModuleName, func(c sdk.Context) []byte { return distributor.NewAppModule(app.DistrKeeper, app.CustomGovKeeper).ExportGenesis(c, cdc) },
+					func(c sdk.Context, bz []byte) { distributor.NewAppModule(app.DistrKeeper, app.CustomGovKeeper).InitGenesis(c, cdc, bz) }},
+				{ubitypes.ModuleName, func(c sdk.Context) []byte { return ubi.NewAppModule(app.UbiKeeper, app.CustomGovKeeper).ExportGenesis(c, cdc) },
+					func(c sdk.Context, bz []byte) { ubi.NewAppModule(app.UbiKeeper, app.CustomGovKeeper).InitGenesis(c, cdc, bz) }},
+				{tokenstypes.ModuleName, func(c sdk.Context) []byte { return tokens.NewAppModule(app.TokensKeeper, app.CustomGovKeeper).ExportGenesis(c, cdc) },
+					func(c sdk.Context, bz []byte) { tokens.NewAppModule(app.TokensKeeper, app.CustomGovKeeper).InitGenesis(c, cdc, bz) }},
+				{layer2types.ModuleName, func(c sdk.Context) []byte { return layer2.NewAppModule(app.Layer2Keeper).ExportGenesis(c, cdc) },
+					func(c sdk.Context, bz []byte) { layer2.NewAppModule(app.Layer2Keeper).InitGenesis(c, cdc, bz) }},
+				{spendingtypes.ModuleName, func(c sdk.Context) []byte { return spending.NewAppModule(app.SpendingKeeper, app.CustomGovKeeper, app.BankKeeper).ExportGenesis(c, cdc) },
+					func(c sdk.Context, bz []byte) { spending.NewAppModule(app.SpendingKeeper, app.CustomGovKeeper, app.BankKeeper).InitGenesis(c, cdc, bz) }},
+			}
+			code, cls, msg := atomic(func(c sdk.Context) error {
+				for _, m := range mods {
+					bz := m.exp(c)
+					store := c.KVStore(app.GetKey(m.name))
+					var keys [][]byte
+					it := store.Iterator(nil, nil)
+					for ; it.Valid(); it.Next() {
+						keys = append(keys, append([]byte{}, it.Key()...))
+					}
+					it.Close()
+					for _, k := range keys {
+						store.Delete(k)
+					}
+					m.imp(c, bz)
+				}
+				return nil
+			})
+			ps, ys := app.DistrKeeper.GetPeriodicSnapshot(ctx), app.DistrKeeper.GetYearStartSnapshot(ctx)
+			var banks []string
+			infos := app.TokensKeeper.GetAllTokenInfos(ctx)
+			sort.Slice(infos, func(i, j int) bool { return denomID(infos[i].Denom) < denomID(infos[j].Denom) })
+			for _, ti := range infos {
+				banks = append(banks, fmt.Sprintf("(%d, %s)", denomID(ti.Denom), hx.ZInt(supplyOf(ctx, ti.Denom))))
+			}
+			obs := fmt.Sprintf("(GObs %d %s (mkSnap %s %s) (mkSnap %s %s) %s %s %s %s)", code, hx.ZInt(supplyOf(ctx, native)), hx.Z(ps.SnapshotTime), oint(ps.SnapshotAmount),
+				hx.Z(ys.SnapshotTime), oint(ys.SnapshotAmount), ubisCoq(ctx), hx.ZInt(poolBal(ctx)), regCoq(ctx), hx.List(banks))
+			add("OGenesis", obs, jop{Kind: "genesis_round_trip", Args: map[string]interface{}{"modules": "distributor,ubi,tokens,layer2,spending", "time": now}, Res: cls, Err: msg,
+				Obs: map[string]interface{}{"periodic_snapshot": fmt.Sprintf("%d/%s", ps.SnapshotTime, ps.SnapshotAmount), "year_snapshot": fmt.Sprintf("%d/%s", ys.SnapshotTime, ys.SnapshotAmount),
+					"ubi_records": ubiJSON(app.UbiKeeper.GetUBIRecords(ctx)), "native_supply": supplyOf(ctx, native).String(),
+					"inflation_possible_after": app.DistrKeeper.InflationPossible(ctx)}})
+		}
 		doFee := func() {
 			actor := 1 + hr.Intn(4)
 			amt := sdk.NewInt(hr.Range(1, 100000))
@@ -747,6 +803,10 @@ func main() {
 			nops = hr.Intn(6)
 		}
 		for i := 0; i < nops; i++ {
+			if hr.Chance(7) { // a chain restart from exported state can happen anywhere
+				doGenesis()
+				continue
+			}
 			x := hr.Intn(100)
 			switch flavour {
 			case 0: // inflation: blocks, parameter changes, fee flows, the occasional native mint/burn through layer2
